@@ -15,6 +15,7 @@ for p in "$@"; do
   echo "== $p $tier exit=$rc :: $(grep -c '^VIOLATION' "$sc/$p.out") violation line(s)"
   grep -A2 '^VIOLATION' "$sc/$p.out" | grep -v '^--' | cut -c1-260 | head -${MUT_LINES:-12}
   tail -1 "$sc/$p.out" | cut -c1-260
+  if [ $rc -eq 2 ]; then grep -m1 -A12 "HARNESS-ERROR" "$sc/$p.out" | cut -c1-400; fi
 done
 git -C /repo worktree remove --force "$wt"
 rm -rf "$sc"
